@@ -33,6 +33,18 @@ type moduleLoadContext struct {
 	cache map[string]starlark.StringDict
 	// loading tracks modules currently being loaded to detect cycles
 	loading map[string]bool
+	// ctx is the context of the Load call; its cancellation stops the evaluation of every module
+	ctx context.Context
+}
+
+// cancelWithContext stops the evaluation running on thread once ctx is done (e.g. the user interrupted
+// grog or another package file failed to load). Starlark code cannot observe the context on its own, so
+// without this a long-running BUILD file keeps grog busy after it was told to exit.
+// The returned function releases the association and must be called when the evaluation is over.
+func cancelWithContext(ctx context.Context, thread *starlark.Thread) (stop func() bool) {
+	return context.AfterFunc(ctx, func() {
+		thread.Cancel(context.Cause(ctx).Error())
+	})
 }
 
 // Load reads the file at the specified filePath and evaluates it as Starlark code.
@@ -47,6 +59,7 @@ func (sl StarlarkLoader) Load(ctx context.Context, filePath string) (PackageDTO,
 	loadContext := &moduleLoadContext{
 		cache:   make(map[string]starlark.StringDict),
 		loading: make(map[string]bool),
+		ctx:     ctx,
 	}
 
 	// Create predeclared functions and values
@@ -70,6 +83,9 @@ func (sl StarlarkLoader) Load(ctx context.Context, filePath string) (PackageDTO,
 			return sl.loadModule(thread, module, filePath, collector, loadContext)
 		},
 	}
+
+	stopCancellation := cancelWithContext(ctx, thread)
+	defer stopCancellation()
 
 	// Execute the Starlark file
 	_, err := starlark.ExecFile(thread, filePath, nil, predeclared)
@@ -150,6 +166,9 @@ func (sl StarlarkLoader) loadModule(thread *starlark.Thread, module string, curr
 			return sl.loadModule(threadInner, moduleInner, modulePath, collector, loadContext)
 		},
 	}
+
+	stopCancellation := cancelWithContext(loadContext.ctx, moduleThread)
+	defer stopCancellation()
 
 	// Execute the module
 	globals, err := starlark.ExecFile(moduleThread, modulePath, nil, predeclared)
